@@ -26,14 +26,20 @@ pub mod c19;
 pub mod c20;
 
 pub struct Tracer { f: std::io::BufWriter<std::fs::File>, pub n: usize }
+/// the call in flight (for the watchdog): a call that does not return within WATCHDOG_S is logged with outcome kind
+/// "timeout" (the property "no operation loops without bound") and the recording ends there
+static IN_FLIGHT: std::sync::Mutex<Option<(std::time::Instant, String)>> = std::sync::Mutex::new(None);
+pub fn watchdog_secs() -> u64 { std::env::var("VERIF_WATCHDOG_S").ok().and_then(|s| s.parse().ok()).unwrap_or(60) }
 impl Tracer {
     pub fn call(&mut self, op: &str, args: Value) -> Value {
+        *IN_FLIGHT.lock().unwrap_or_else(|e| e.into_inner()) = Some((std::time::Instant::now(), json!({"op": op, "args": args, "out": {"kind": "timeout"}}).to_string()));
         let out = ops::exec(op, &args);
+        *IN_FLIGHT.lock().unwrap_or_else(|e| e.into_inner()) = None;
         writeln!(self.f, "{}", json!({"op": op, "args": args, "out": out})).unwrap();
         self.n += 1;
         out
     }
-    pub fn reset(&mut self) { writeln!(self.f, "{}", json!({"op": "reset"})).unwrap(); self.n += 1; }
+    pub fn reset(&mut self) { writeln!(self.f, "{}", json!({"op": "reset"})).unwrap(); self.n += 1; self.f.flush().unwrap(); }
 }
 
 pub fn main(a: &[String]) {
@@ -66,6 +72,21 @@ pub fn main(a: &[String]) {
         "c20" => c20::drive,
         _ => { eprintln!("unknown driver {}", driver); std::process::exit(2); }
     };
+    // watchdog: the events written so far are in the BufWriter of the stuck thread, so the driver flushes every 64 events
+    // (see Tracer::reset) and the watchdog appends the timed-out event to a side file that the pipeline concatenates
+    let side = format!("{}.timeout", &a[3]);
+    let _ = std::fs::remove_file(&side);
+    std::thread::spawn(move || loop {
+        std::thread::sleep(std::time::Duration::from_millis(500));
+        let g = IN_FLIGHT.lock().unwrap_or_else(|e| e.into_inner());
+        if let Some((t0, line)) = g.as_ref() {
+            if t0.elapsed().as_secs() >= watchdog_secs() {
+                std::fs::write(&side, format!("{}\n", line)).unwrap();
+                println!("{}", json!({"events": 0, "timeout": true}));
+                std::process::exit(0);
+            }
+        }
+    });
     f(&mut t, &mut r, n);
     t.f.flush().unwrap();
     println!("{}", json!({"events": t.n}));
